@@ -1,20 +1,18 @@
 /-
   C03 — property theorems.  Every `theorem` here is one audited proof obligation.
-  Names ending in `_partial` are weaker than the property demands; the comment says what is missing.
-  Names ending in `_witness` are proved counter-examples on the model of the code as it is today
-  (`Cfg.asCoded`): the corresponding full-strength statement is false for /repo and is stated (and
-  proved, where marked) only for the repaired configuration.
+  The model (`Model.lean`) transcribes /repo after the re-sync fix commits; all statements are full strength
+  and hold for every fuel, every inner behaviour (unbounded nesting) and every ending.
 -/
-import GojaModel.C03.Lemmas3
+import GojaModel.C03.Lemmas6
 
 namespace GojaModel.C03
 
 /-! ## handleThrow -/
 
-/-- `handleThrow_restores`, part 1 (vm.go:809-817): at the frame where handleThrow stops, `sp`, `stash`,
-`privEnv` equal the snapshot; if the call stack grew since the snapshot (`callStackLen < |callStack|`)
-it is cut back to the snapshot length and `prg, pc, sb, args, newTarget, result` come from the saved
-context at that index; otherwise registers and call stack are untouched. -/
+/-- `handleThrow_restores`, the register part (vm.go handleThrow): at the frame where handleThrow stops,
+`sp`, `stash`, `privEnv` equal the snapshot; if the call stack grew since the snapshot
+(`callStackLen < |callStack|`) it is cut back to the snapshot length and `prg, pc, sb, args, newTarget,
+result` come from the saved context at that index; otherwise registers and call stack are untouched. -/
 theorem handleThrow_restores_frame (tf : TryFrame) (s : Vm) :
     (restoreFrame tf s).sp = tf.sp ∧ (restoreFrame tf s).stash = tf.stash ∧
     (restoreFrame tf s).privEnv = tf.privEnv ∧
@@ -36,32 +34,34 @@ theorem handleThrow_restores_frame (tf : TryFrame) (s : Vm) :
     have : s.callStack[tf.callStackLen]? = none := by simp [h]
     simp [restoreFrame, this]
 
-/-- `handleThrow_restores`, complete statement (vm.go:800-839), for every number of skipped frames above
-the landing frame and every iterator-close behaviour: handleThrow lands on the innermost live frame
-`tf` (snapshot of `s0`), and `regs (prg, sb, args, newTarget)`, `stash`, `privEnv`, the whole `callStack`
-equal the snapshot; `sp` is the snapshot (+1 for the pushed exception value when caught); iterator and
-reference stacks equal the snapshot unless an iterator close was itself aborted by an uncatchable
-(`aborted`) — in which case they only extend it (see `unwind_abort_leaks_iter_witness`). -/
-theorem handleThrow_restores {runF : RunF} (cfg : Cfg) (HA : HypA runF) (catchable : Bool)
-    (s0 : Vm) (tf : TryFrame) (base e : List TryFrame) (s1 : Vm) (hF : FrameOf s0 tf)
+/-- `handleThrow_restores`, complete (for the real interpreter `run fuel`, any fuel): whatever number of
+skippable frames lie above it, handleThrow lands on the innermost live frame `tf` (snapshot of `s0`) and
+`prg sb args newTarget`, `stash`, `privEnv`, the whole call stack, the iterator and reference stacks equal
+the snapshot — the last two even when an iterator's `return()` aborted the unwinding; `sp` is the snapshot
+(+1 for the pushed exception value when caught); the loop never falls through (`≠ empty`) and the try
+stack is cut to the landing frame. -/
+theorem handleThrow_restores (fuel : Nat) (catchable : Bool)
+    (s0 : Vm) (hI : Inv s0) (tf : TryFrame) (base e : List TryFrame) (s1 : Vm) (hF : FrameOf s0 tf)
     (hlive : skipped catchable tf = false)
     (hwf : tf.catchPos = tryPanicMarker ∨ tf.catchPos ≥ 0 ∨ tf.finallyPos ≥ 0)
     (hts : s1.tryStack = e ++ tf :: base) (hsk : ∀ f ∈ e, skipped catchable f = true)
     (hcs : ∃ ec, s1.callStack = s0.callStack ++ ec ∧ levelRegs ec s1 = s0.regs)
     (his : ∃ ei, s1.iterStack = s0.iterStack ++ ei) (hrs : ∃ er, s1.refStack = s0.refStack ++ er) :
-    let r := handleThrow runF cfg catchable s1
-    r.2.regs = s0.regs ∧ r.2.stash = s0.stash ∧ r.2.privEnv = s0.privEnv ∧
-    r.2.callStack = s0.callStack ∧
-    (r.1 ≠ .aborted ∨ cfg.fixUnwindAbort = true →
-        r.2.iterStack = s0.iterStack ∧ r.2.refStack = s0.refStack) ∧
-    r.1 ≠ .empty ∧
-    (r.1 = .caught → r.2.sp = s0.sp + 1) ∧ (r.1 ≠ .caught → r.2.sp = s0.sp) ∧
-    r.2.tryStack.length = base.length + 1 := by
-  intro r
-  have h := handleThrowLoop_spec cfg HA catchable s0 tf base hF hlive hwf e s1 hsk hcs his hrs r
-    (by show handleThrow runF cfg catchable s1 = _; unfold handleThrow; rw [hts])
-  obtain ⟨a1, a2, a3, a4, _, _, a7, a8, a9, a10, a11, a12⟩ := h
-  refine ⟨a1, a2, a3, a4, a7, a8, fun hc => (a11 hc).2.1, ?_, ?_⟩
+    (handleThrow (run fuel) catchable s1).2.regs = s0.regs ∧
+    (handleThrow (run fuel) catchable s1).2.stash = s0.stash ∧
+    (handleThrow (run fuel) catchable s1).2.privEnv = s0.privEnv ∧
+    (handleThrow (run fuel) catchable s1).2.callStack = s0.callStack ∧
+    (handleThrow (run fuel) catchable s1).2.iterStack = s0.iterStack ∧
+    (handleThrow (run fuel) catchable s1).2.refStack = s0.refStack ∧
+    (handleThrow (run fuel) catchable s1).1 ≠ .empty ∧
+    ((handleThrow (run fuel) catchable s1).1 = .caught → (handleThrow (run fuel) catchable s1).2.sp = s0.sp + 1) ∧
+    ((handleThrow (run fuel) catchable s1).1 ≠ .caught → (handleThrow (run fuel) catchable s1).2.sp = s0.sp) ∧
+    (handleThrow (run fuel) catchable s1).2.tryStack.length = base.length + 1 := by
+  have h := handleThrowLoop_spec (run_good fuel).2 catchable s0 hI tf base hF hlive hwf e s1 hsk hcs his hrs
+    (handleThrow (run fuel) catchable s1) (by unfold handleThrow; rw [hts])
+  generalize handleThrow (run fuel) catchable s1 = r at h
+  obtain ⟨a1, a2, a3, a4, a5, a6, a8, _, a9, a10, a11, a12⟩ := h
+  refine ⟨a1, a2, a3, a4, a5, a6, a8, fun hc => (a11 hc).2.1, ?_, ?_⟩
   · intro hc
     cases hr : r.1 with
     | caught => exact absurd hr hc
@@ -76,51 +76,108 @@ theorem handleThrow_restores {runF : RunF} (cfg : Cfg) (HA : HypA runF) (catchab
     | aborted => simp [(a9 hr).2]
     | empty => exact absurd hr a8
 
+/-- uncatchables close no iterator (fix 5d979ec): unwinding for an interrupt / stack overflow is a pure
+truncation and runs no script code, whatever the interpreter -/
+theorem uncatchable_closes_no_iterator (runF : RunF) (il rl : Nat) (s : Vm) :
+    restoreStacks runF false il rl s =
+      (false, { s with iterStack := s.iterStack.take il, refStack := s.refStack.take rl }) := by
+  simp [restoreStacks]
+
+/-- `_restoreStacks` cuts both stacks back even when an iterator close leaves it with an uncatchable
+(fix 570c7df), for every interpreter and iterator behaviour -/
+theorem restoreStacks_truncates_always (runF : RunF) (doClose : Bool) (il rl : Nat) (s : Vm) :
+    (restoreStacks runF doClose il rl s).2.iterStack.length ≤ il ∧
+    (restoreStacks runF doClose il rl s).2.refStack.length ≤ rl := by
+  simp [restoreStacks, List.length_take]
+  exact ⟨Nat.min_le_left _ _, Nat.min_le_left _ _⟩
+
+/-! ## the run-loop discipline (closing induction) -/
+
+/-- every behaviour, at every fuel, from every state satisfying `Inv`: normal ending ⇒ control state
+unchanged; throw ⇒ the stacks only grew, extra try frames are consumed JS frames; uncatchable ⇒ the stacks
+only grew, no boundary marker was left behind; `stuck` (handleThrow landing on a foreign frame) never
+happens; a non-uncatchable ending leaves the interrupt flag alone. -/
+theorem run_obeys_discipline (fuel : Nat) (b : Beh) (s : Vm) (hI : Inv s) : Good s (run fuel b s) :=
+  (run_good fuel).1 b s hI
+
+theorem never_stuck (fuel : Nat) (b : Beh) (s : Vm) (hI : Inv s) : (run fuel b s).1 ≠ .stuck := by
+  have h := (run_good fuel).1 b s hI
+  intro hs
+  have := h.1
+  simp [GoodCtl, hs] at this
+
 /-! ## boundaries -/
 
-/-- `boundary_balanced` for `vm.try` (Runtime.Try, every builtin that shields a callback, promise
-reaction jobs, iterator close): for EVERY inner behaviour and EVERY ending (normal, caught/uncaught
-throw, interrupt, stack overflow) the control state after the call equals the state before it —
-except that an ending `wrecked` (an uncatchable raised by an iterator's `return` *during the unwinding
-of this very boundary*) may leave iterator/reference records behind.
-`_partial`: relative to `HypG`/`HypA` — the inner behaviours satisfy the run-loop discipline `Good` and
-nested vm.try boundaries are balanced; the closing induction over the behaviour tree (`step` preserves
-`Good` for every node kind) is not machine-checked yet; it is validated by the per-probe stack-length
-correspondence with the real VM. -/
-theorem boundary_balanced_try_partial {runF : RunF} (cfg : Cfg) (HG : HypG runF) (HA : HypA runF)
-    (b : Beh) (s : Vm) :
-    (tryB runF cfg b s).1 ≠ .stuck ∧
-    ((tryB runF cfg b s).1 ≠ .wrecked → ctlState (tryB runF cfg b s).2 = ctlState s) := by
-  have h := tryB_spec cfg HG HA b s
-  refine ⟨h.1, fun hw => ?_⟩
-  have hs := h.2.2 hw
-  have hr := hs.regs
+theorem ctl_of_same {s t : Vm} (h : Same s t) : ctlState t = ctlState s := by
+  have hr := h.regs
   simp only [Vm.regs, Regs.mk.injEq] at hr
-  simp [ctlState, hs.sp, hs.stash, hs.privEnv, hs.cs, hs.ts, hs.is, hs.rs, hr.1, hr.2.1, hr.2.2.1, hr.2.2.2]
+  simp [ctlState, h.sp, h.stash, h.privEnv, h.cs, h.ts, h.is, h.rs, hr.1, hr.2.1, hr.2.2.1, hr.2.2.2]
 
-/-- with fixes/C03-unwind-abort.diff the exception disappears: no ending is `wrecked` -/
-theorem abortOutcome_fixed (cfg : Cfg) (h : cfg.fixUnwindAbort = true) : abortOutcome cfg = .fatal := by
-  simp [abortOutcome, h]
+/-- **boundary_balanced, vm.try** (Runtime.Try, builtins shielding a callback, promise reaction jobs,
+iterator close): ∀ inner behaviour, ∀ ending — normal, caught or uncaught throw, interrupt, stack overflow —
+the control state after equals the control state before. -/
+theorem boundary_balanced_try (fuel : Nat) (b : Beh) (s : Vm) (hI : Inv s) :
+    (tryB (run fuel) b s).1 ≠ .stuck ∧ ctlState (tryB (run fuel) b s).2 = ctlState s :=
+  have h := tryB_spec (run_good fuel).1 (run_good fuel).2 b s hI
+  ⟨h.1, ctl_of_same h.2.1⟩
+
+/-- **boundary_balanced, runWrapped** (at any depth: nested from a native frame or outermost) -/
+theorem boundary_balanced_runWrapped (fuel lf : Nat) (b : Beh) (s : Vm) (hI : Inv s) :
+    (runWrapped (run fuel) lf b s).1 ≠ .stuck ∧ ctlState (runWrapped (run fuel) lf b s).2 = ctlState s :=
+  have h := runWrapped_spec (run_good fuel).1 (run_good fuel).2 lf b s hI
+  ⟨h.1, ctl_of_same h.2.1⟩
+
+/-- **boundary_balanced, Callable** (`AssertFunction(v)(this, args…)`, ExportTo'd functions) -/
+theorem boundary_balanced_callable (fuel : Nat) (n : Nat) (f : FnInfo) (b : Beh) (s : Vm) (hI : Inv s) :
+    (apiCall fuel (.callable n f) b s).1 ≠ .stuck ∧
+    ctlState (apiCall fuel (.callable n f) b s).2 = ctlState s :=
+  have h := apiCall_spec fuel (.callable n f) b s hI
+  ⟨h.1, ctl_of_same h.2.1⟩
+
+/-- **boundary_balanced, Constructor** (`AssertConstructor(v)(newTarget, args…)`) -/
+theorem boundary_balanced_constructor (fuel : Nat) (n : Nat) (f : FnInfo) (b : Beh) (s : Vm) (hI : Inv s) :
+    (apiCall fuel (.constructor n f) b s).1 ≠ .stuck ∧
+    ctlState (apiCall fuel (.constructor n f) b s).2 = ctlState s :=
+  have h := apiCall_spec fuel (.constructor n f) b s hI
+  ⟨h.1, ctl_of_same h.2.1⟩
+
+/-- **boundary_balanced, RunProgram recursive** (from a native frame), including the overflow of its own
+pushCtx at the depth limit (fix 195a32b) -/
+theorem boundary_balanced_runProgram_recursive (fuel p : Nat) (b : Beh) (s : Vm) (hI : Inv s) :
+    (runProgramRec (run fuel) p b s).1 ≠ .stuck ∧ ctlState (runProgramRec (run fuel) p b s).2 = ctlState s :=
+  have h := runProgramRec_spec (run_good fuel).1 (run_good fuel).2 p b s hI
+  ⟨h.1, ctl_of_same h.2.1⟩
+
+/-- **boundary_balanced, RunProgram outermost**: also `prg` and `sb` are back (fix e71ffae), for every ending -/
+theorem boundary_balanced_runProgram_outermost (fuel lf p : Nat) (b : Beh) (s : Vm) (hI : Inv s)
+    (h0 : s.callStack = []) :
+    (runProgramOuter (run fuel) lf p b s).1 ≠ .stuck ∧
+    ctlState (runProgramOuter (run fuel) lf p b s).2 = ctlState s :=
+  have h := (runProgramOuter_spec (run_good fuel).1 (run_good fuel).2 lf p b s hI h0).1
+  ⟨h.1, ctl_of_same h.2.1⟩
+
+/-- **boundary_balanced**, all host API calls at once (RunProgram picks its branch by the call-stack length;
+`try_`/`tryGet` are Runtime.Try around Go-side operations / a getter) -/
+theorem boundary_balanced (fuel : Nat) (k : TopApi) (b : Beh) (s : Vm) (hI : Inv s) :
+    (apiCall fuel k b s).1 ≠ .stuck ∧ ctlState (apiCall fuel k b s).2 = ctlState s :=
+  have h := apiCall_spec fuel k b s hI
+  ⟨h.1, ctl_of_same h.2.1⟩
 
 /-! ## leave / leaveAbrupt -/
 
-theorem leave_drains (runF : RunF) (lf : Nat) (s : Vm) :
+theorem leave_drains (runF : RunF) (HA : HypA runF) (lf : Nat) (s : Vm) (hI : Inv s) :
     (leaveLoop runF lf s).1 = .normal → (leaveLoop runF lf s).2.jobQueue = [] :=
-  leaveLoop_drains runF lf s
+  (leaveLoop_spec HA lf s hI).2.2.2.2
 
-theorem leaveAbrupt_clears (cfg : Cfg) (s : Vm) :
-    (leaveAbrupt cfg s).jobQueue = [] ∧ (leaveAbrupt cfg s).interrupted = false := by
-  unfold leaveAbrupt
-  split <;> simp
-
-/-- leaveAbrupt touches nothing else of the control state (as coded) -/
-theorem leaveAbrupt_ctl (s : Vm) : ctlState (leaveAbrupt Cfg.asCoded s) = ctlState s := by
-  simp [leaveAbrupt, Cfg.asCoded, ctlState]
+theorem leaveAbrupt_clears (s : Vm) :
+    (leaveAbrupt s).jobQueue = [] ∧ (leaveAbrupt s).interrupted = false ∧
+    (leaveAbrupt s).prg = none ∧ (leaveAbrupt s).sb = -1 := by
+  simp [leaveAbrupt]
 
 /-! ## call-depth limit -/
 
 /-- `depth_limit_uniform`: pushCtx refuses exactly when the call stack is longer than the limit,
-whatever else the state contains (vm.go:911) … -/
+whatever else the state contains … -/
 theorem depth_limit_uniform (s : Vm) :
     (pushCtx s = none ↔ s.callStack.length > s.maxCallStackSize) ∧
     (∀ t, pushCtx s = some t → t.callStack = s.callStack ++ [saveCtx s] ∧ t.sp = s.sp ∧
@@ -133,96 +190,84 @@ theorem depth_limit_uniform (s : Vm) :
     · simp at h
     · simp at h; subst h; simp
 
-/-- … and at every JS→JS / JS→native call, at any depth and any limit, the overflow is an *uncatchable*
-ending of that node that has changed no stack (so it is an instance of `boundary_balanced`). -/
-theorem depth_limit_is_uncatchable (cfg : Cfg) (lf : Nat) (runF : RunF) (k : FrameKind) (ret body : Beh)
+/-- … at every JS→JS / JS→native call, at any depth and any limit, the overflow is an *uncatchable* ending of
+that node that changed no stack — so it is an instance of `boundary_balanced` … -/
+theorem depth_limit_is_uncatchable (lf : Nat) (runF : RunF) (k : FrameKind) (ret body : Beh)
     (s : Vm) (h : k.pre ret s = none) :
-    step cfg lf runF (.frame k ret body) s = (.fatal, s) := by
+    step lf runF (.frame k ret body) s = (.fatal, s) := by
   simp [step, h]
+
+/-- … and so is the overflow of a re-entrant RunProgram's own pushCtx (fix 195a32b). -/
+theorem runProgramRec_overflow_noop (runF : RunF) (p : Nat) (b : Beh) (s : Vm) (h : pushCtx s = none) :
+    runProgramRec runF p b s = (.fatal, s) := by
+  simp [runProgramRec, h]
 
 /-! ## Idle -/
 
-/-- a fresh runtime is idle, for every limit -/
+/-- Idle without the job-queue clause: Runtime.Try does not call leave(), jobs queued under it wait for the
+next leave (that is C10's concern) -/
+def IdleCtl (s : Vm) : Prop :=
+  s.sp = 0 ∧ s.sb = -1 ∧ s.prg = none ∧ s.stash = globalStash ∧ s.privEnv = none ∧
+  s.callStack = [] ∧ s.tryStack = [] ∧ s.iterStack = [] ∧ s.refStack = [] ∧ s.interrupted = false
+
 theorem fresh_idle (m : Nat) : Idle (Vm.fresh m) := by
   simp [Idle, Vm.fresh, globalStash]
 
-/-! ## defects of the code as it is: witnesses on the model of `Cfg.asCoded`, and the repaired statements
+theorem idle_iff (s : Vm) : Idle s ↔ IdleCtl s ∧ s.jobQueue = [] := by
+  unfold Idle IdleCtl
+  constructor
+  · rintro ⟨a, b, c, d, e, f, g, h, i, j, k⟩; exact ⟨⟨a, b, c, d, e, f, g, h, i, k⟩, j⟩
+  · rintro ⟨⟨a, b, c, d, e, f, g, h, i, k⟩, j⟩; exact ⟨a, b, c, d, e, f, g, h, i, j, k⟩
 
-The end-to-end instances (whole API calls) are executed by the model driver on every run and compared
-with the real runtime (`sentinels()` in run/c03.py); kernel evaluation of whole calls is too slow for
-`decide`, so the theorems below pin the responsible step. -/
+/-- **idle_after_any_api_call**: from an idle runtime (jobs possibly pending from an earlier Try), after ANY
+API call with ANY inner behaviour and ANY ending the runtime is idle again: no frame, no try / iterator /
+reference record, global scope, no current program, interrupt flag clear; and the job queue is empty after
+every call that leaves (RunProgram, Callable, Constructor) and after every uncatchable ending. -/
+theorem idle_after_any_api_call (fuel : Nat) (k : TopApi) (b : Beh) (s : Vm) (hs : IdleCtl s) :
+    (apiCall fuel k b s).1 ≠ .stuck ∧ IdleCtl (apiCall fuel k b s).2 ∧
+    ((apiCall fuel k b s).1 = .fatal → (apiCall fuel k b s).2.jobQueue = []) ∧
+    ((k matches .runProgram | .callable .. | .constructor ..) → (apiCall fuel k b s).2.jobQueue = []) := by
+  obtain ⟨a, b1, c, d, e, f, g, h, i, j⟩ := hs
+  have hI : Inv s := fun _ => ⟨c, b1⟩
+  obtain ⟨h1, h2, h3⟩ := apiCall_spec fuel k b s hI
+  obtain ⟨x1, x2⟩ := apiCall_exit fuel k b s hI f
+  have hr := h2.regs
+  simp only [Vm.regs, Regs.mk.injEq] at hr
+  refine ⟨h1, ⟨h2.sp.trans a, hr.2.1.trans b1, hr.1.trans c, h2.stash.trans d, h2.privEnv.trans e,
+    h2.cs.trans f, h2.ts.trans g, h2.is.trans h, h2.rs.trans i, ?_⟩, fun hf => (x1 hf).1, x2⟩
+  by_cases hf : (apiCall fuel k b s).1 = .fatal
+  · exact (x1 hf).2
+  · exact (h3 hf).trans j
 
-/-- F1 (fixes/C03-stale-prg.diff): leaveAbrupt — all that RunProgram's deferred recover does at depth 0 —
-does not reset `vm.prg`, so "idle ⇒ prg = nil" fails after an uncatchable ending … -/
-theorem leaveAbrupt_keeps_prg_witness : ¬ ∀ s : Vm, (leaveAbrupt Cfg.asCoded s).prg = none := by
-  intro h
-  have := h { Vm.fresh 0 with prg := some 1 }
-  simp [leaveAbrupt, Cfg.asCoded, Vm.fresh] at this
+/-- a whole history of API calls from a fresh runtime -/
+def runHistory (fuel : Nat) : List (TopApi × Beh) → Vm → Vm
+  | [], s => s
+  | (k, b) :: rest, s => runHistory fuel rest (apiCall fuel k b s).2
 
-/-- … and with the repair it does, for every state. -/
-theorem leaveAbrupt_resets_prg_fixed (s : Vm) :
-    (leaveAbrupt Cfg.allFixed s).prg = none ∧ (leaveAbrupt Cfg.allFixed s).sb = -1 := by
-  simp [leaveAbrupt, Cfg.allFixed]
+/-- after any history of any length, with any behaviours and endings, the runtime is idle -/
+theorem idle_after_any_history (fuel : Nat) (h : List (TopApi × Beh)) (m : Nat) :
+    IdleCtl (runHistory fuel h (Vm.fresh m)) := by
+  have hfresh : IdleCtl (Vm.fresh m) := ((idle_iff _).mp (fresh_idle m)).1
+  generalize Vm.fresh m = s at hfresh
+  induction h generalizing s with
+  | nil => exact hfresh
+  | cons c rest ih =>
+    obtain ⟨k, b⟩ := c
+    exact ih _ (idle_after_any_api_call fuel k b s hfresh).2.1
 
-/-- F2 (fixes/C03-try-leave.diff): as coded, Runtime.Try is exactly vm.try — no leaveAbrupt on any ending,
-so an interrupt flag raised inside stays set (`tryB` never clears it) -/
-theorem runtimeTry_asCoded_is_tryB (fuel : Nat) (b : Beh) (s : Vm) :
-    runtimeTry Cfg.asCoded fuel b s = tryB (run Cfg.asCoded fuel) Cfg.asCoded b s := by
-  unfold runtimeTry
-  generalize tryB (run Cfg.asCoded fuel) Cfg.asCoded b s = r
-  obtain ⟨o, s1⟩ := r
-  cases o <;> simp [Cfg.asCoded]
+/-! ## regression lemmas about the repaired steps -/
 
-/-- repaired: an uncatchable ending at depth 0 clears flag and queue -/
-theorem runtimeTry_fixed_clears (fuel : Nat) (b : Beh) (s : Vm)
-    (h : (tryB (run Cfg.allFixed fuel) Cfg.allFixed b s).1 = .fatal)
-    (h0 : (tryB (run Cfg.allFixed fuel) Cfg.allFixed b s).2.callStack.length = 0) :
-    (runtimeTry Cfg.allFixed fuel b s).2.interrupted = false ∧
-    (runtimeTry Cfg.allFixed fuel b s).2.jobQueue = [] := by
-  unfold runtimeTry
-  generalize tryB (run Cfg.allFixed fuel) Cfg.allFixed b s = r at h h0
-  obtain ⟨o, s1⟩ := r
-  simp only at h h0
-  subst h
-  simp [Cfg.allFixed, h0, leaveAbrupt]
+/-- Runtime.Try at depth 0 clears flag and queue when an uncatchable passes (fix 9e5aa04) -/
+theorem runtimeTry_fatal_clears (fuel : Nat) (b : Beh) (s : Vm) (hI : Inv s) (h0 : s.callStack = [])
+    (h : (runtimeTry fuel b s).1 = .fatal) :
+    (runtimeTry fuel b s).2.jobQueue = [] ∧ (runtimeTry fuel b s).2.interrupted = false :=
+  (runtimeTry_spec fuel b s hI).2 h h0
 
-/-- F3 (fixes/C03-unwind-abort.diff): if closing an iterator ends with an uncatchable, restoreStacks as
-coded leaves the iterator record on the stack (here: one record, snapshot length 0) … -/
-theorem restoreStacks_abort_leaks_witness :
-    (restoreStacks (fun _ s => (.fatal, s)) Cfg.asCoded 0 0
-        { Vm.fresh 0 with iterStack := [⟨true, .skip⟩] }).2.iterStack.length = 1 := by
-  simp [restoreStacks, closeIters, Cfg.asCoded, Vm.fresh]
+/-! ## non-vacuity -/
 
-/-- … the repaired one cuts both stacks back whatever the iterator close did. -/
-theorem restoreStacks_fixed_truncates (runF : RunF) (cfg : Cfg) (h : cfg.fixUnwindAbort = true)
-    (il rl : Nat) (s : Vm)
-    (hk : (closeIters runF (s.iterStack.drop il).reverse s).2.iterStack.length ≥ il) :
-    (restoreStacks runF cfg il rl s).2.iterStack.length = il := by
-  simp [restoreStacks, h, List.length_take]
-  omega
-
-/-- F4 (fixes/C03-recursive-overflow.diff): RunProgram entered re-entrantly exactly at the depth limit
-(its own pushCtx overflows) still runs `vm.sp -= 2; vm.popCtx()` in its deferred function: the caller
-loses a context it owns … -/
-theorem runProgramRec_overflow_pops_witness (runF : RunF) (p : Nat) (b : Beh) (s : Vm)
-    (h : pushCtx s = none) (h2 : s.callStack.length ≥ 2) :
-    (runProgramRec runF Cfg.asCoded p b s).2.callStack.length = s.callStack.length - 1 := by
-  unfold runProgramRec
-  simp only [h, Cfg.asCoded]
-  have hne : s.callStack ≠ [] := by intro h0; simp [h0] at h2
-  obtain ⟨c, hc⟩ : ∃ c, s.callStack.getLast? = some c := by
-    cases hh : s.callStack.getLast? with
-    | none => simp [List.getLast?_eq_none_iff] at hh; exact absurd hh hne
-    | some c => exact ⟨c, rfl⟩
-  have hlen : (popCtx { s with sp := s.sp - 2 }).callStack.length = s.callStack.length - 1 := by
-    simp [popCtx, hc, restoreCtx]
-  have hnz : ¬ (popCtx { s with sp := s.sp - 2 }).callStack.length = 0 := by rw [hlen]; omega
-  simp only [Bool.false_eq_true, if_false, hnz]
-  exact hlen
-
-/-- … the repaired one leaves the state alone. -/
-theorem runProgramRec_overflow_fixed (runF : RunF) (p : Nat) (b : Beh) (s : Vm) (h : pushCtx s = none) :
-    runProgramRec runF Cfg.allFixed p b s = (.fatal, s) := by
-  simp [runProgramRec, h, Cfg.allFixed]
+/-- the hypotheses of the boundary theorems are satisfiable by non-trivial states: any state with a
+non-empty call stack satisfies `Inv`, so does every idle state -/
+example (s : Vm) (h : s.callStack ≠ []) : Inv s := inv_of_ne h
+example (m : Nat) : Inv (Vm.fresh m) := fun _ => ⟨rfl, rfl⟩
 
 end GojaModel.C03
